@@ -66,6 +66,9 @@ P = {
    note="4-point grid; shuffle outcomes discovered as equal intervals of the raw draw."),
 }
 
+# harnesses that are committed but whose triage on the unchanged tree is still in progress
+NOT_YET = {"C11"}
+
 BUILT_REASON = "check under construction in this revision (design in DESIGN.md section 3); not claimed until its harness is committed and has run clean end-to-end"
 
 def main():
@@ -73,7 +76,7 @@ def main():
     tracked = set(subprocess.run(["git", "-C", ROOT, "ls-files", "harness"], stdout=subprocess.PIPE, text=True).stdout.split())
     for pid in sorted(P):
         m = P[pid]
-        if "harness/%s.cpp" % pid in tracked:   # only harnesses that are committed are claimed
+        if "harness/%s.cpp" % pid in tracked and pid not in NOT_YET:   # only harnesses that are committed are claimed
             checks.append({
                 "property_id": pid,
                 "quick_cmd": "./check %s --tier quick" % pid,
